@@ -114,22 +114,25 @@ pub fn gen_world(seed: u64, idx: u64, s: &dyn SuiteOps, mode: usize) -> World {
             // class triples incl. defaults, explicit-default spellings, empty, one-sided
             let cred = small_cred(&mut g);
             let classes_u = |g: &mut Gen, rec: Option<u32>| -> IdSpec {
-                match g.below(7) {
+                match g.below(9) {
                     0 | 1 => IdSpec::Absent,
                     2 => rec.map(IdSpec::ClientPkOf).unwrap_or(IdSpec::Absent),
                     3 => bytes(b""),
                     4 => bytes(b"alice"),
                     5 => bytes(b"alicf"),
+                    6 => bytes(b"alice\n"),
+                    7 => bytes(b" alice"),
                     _ => bytes(&[0u8; 2]),
                 }
             };
             let classes_s = |g: &mut Gen, setup: u32| -> IdSpec {
-                match g.below(7) {
+                match g.below(8) {
                     0 | 1 => IdSpec::Absent,
                     2 => IdSpec::ServerPkOf(setup),
                     3 => bytes(b""),
                     4 => bytes(b"srv"),
                     5 => bytes(b"srw"),
+                    6 => bytes(b"srv "),
                     _ => bytes(b"alice"),
                 }
             };
@@ -250,6 +253,28 @@ pub fn gen_world(seed: u64, idx: u64, s: &dyn SuiteOps, mode: usize) -> World {
                     }
                 }
             }
+            if (idx / 4) % 2 == 1 {
+                // identities beyond the limit against the default and against their own
+                // 65535-byte prefix: at registration, at the server, at the client, on both
+                let biglen = if g.chance(1, 2) { 65536 } else { 70000 };
+                let big = g.bytes(biglen);
+                let pre = big[..65535].to_vec();
+                let (rd, ops) = b.reg_ops(&mut g, setup, &pw, &pw, &cred, WIds::default(), ksf.clone(), false);
+                push_all(&mut b, ops);
+                let client_side = g.chance(1, 2);
+                let wid = |x: &[u8]| if client_side { WIds { client: bytes(x), server: IdSpec::Absent } } else { WIds { client: IdSpec::Absent, server: bytes(x) } };
+                let (rp, ops) = b.reg_ops(&mut g, setup, &pw, &pw, &cred, wid(&pre), ksf.clone(), false);
+                push_all(&mut b, ops);
+                // registration under the over-long identity itself must be refused
+                let (_, ops) = b.reg_ops(&mut g, setup, &pw, &pw, &cred, wid(&big), ksf.clone(), false);
+                push_all(&mut b, ops);
+                for (rec, other) in [(rd.record, WIds::default()), (rp.record, wid(&pre))] {
+                    for (sids, cids) in [(wid(&big), other.clone()), (other.clone(), wid(&big)), (wid(&big), wid(&big))] {
+                        let (_, ops) = b.login_ops(&mut g, setup, Some(rec), &pw, &pw, &cred, None, None, sids, cids, ksf.clone(), false);
+                        push_all(&mut b, ops);
+                    }
+                }
+            }
             for sv in 0..variants.len() {
                 for cv in [rv, sv, g.below(variants.len())] {
                     let sids = WIds { client: bytes(&variants[sv].0), server: bytes(&variants[sv].1) };
@@ -287,7 +312,7 @@ pub fn gen_world(seed: u64, idx: u64, s: &dyn SuiteOps, mode: usize) -> World {
 
 pub fn run(ctx: &Ctx) -> Report {
     let mut rep = Report::new(
-        "4 world modes per suite: (0) boundary-shifted splits of one string w into (ctx, id_u, id_s) at registration / server login / client login; (1) class triples over absent / explicit-default spelling / empty / short / near-miss identities incl. one-sided ones, and contexts absent/empty/ctx/ctx\\0/cty; (2) lengths 255/256/65535 and crafted twins that would collide under a 1-byte (mod 256) or missing length prefix; (3) 25 credential-identifier pairs (equal, prefix, last-byte, whitespace/NUL/case twins, 57/58, 64/65, 121/122, 200-byte and 70000-byte tails, long identifier vs its SHA-256/384/512 digest) at registration vs login. Model A decides accept/reject; non-trivial = world contains a predicted rejection; distinct = hash of (suite, op/outcome sequence)",
+        "4 world modes per suite: (0) boundary-shifted splits of one string w into (ctx, id_u, id_s) at registration / server login / client login; (1) class triples over absent / explicit-default spelling / empty / short / near-miss identities incl. one-sided ones, and contexts absent/empty/ctx/ctx\\0/cty; (2) lengths 255/256/65535, identities of 65536/70000 bytes against the default and against their 65535-byte prefix (registration / server / client / both), and crafted twins that would collide under a 1-byte (mod 256) or missing length prefix; (3) 25 credential-identifier pairs (equal, prefix, last-byte, whitespace/NUL/case twins, 57/58, 64/65, 121/122, 200-byte and 70000-byte tails, long identifier vs its SHA-256/384/512 digest) at registration vs login. Model A decides accept/reject; non-trivial = world contains a predicted rejection; distinct = hash of (suite, op/outcome sequence)",
     );
     let mut suites: Vec<&'static dyn SuiteOps> = SIM_SUITES.to_vec();
     suites.extend(ID_SUITES.iter().step_by(ctx.pick(5, 2)));
